@@ -1234,6 +1234,10 @@ class CryptContext:
         if isinstance(value, (list, tuple)):
             value = ", ".join(value)
 
+        # bytes (e.g. an ``ident`` given as bytes) are written as the text they spell
+        elif isinstance(value, bytes):
+            value = value.decode("ascii")
+
         # convert numbers to strings
         elif isinstance(value, numeric_types):
             if isinstance(value, float) and key[2] == "vary_rounds":
